@@ -156,6 +156,8 @@ Definition c20_exact (sc : schema) (acts : list act) (tr : trace) : bool :=
      2 = "gap not closed by a GapFill": a message above the expected number, and the burst that answers the
          session's ResendRequest contains no SequenceReset-GapFill;
      3 = "gap revealed by a Reject": a Reject (35=3) arrives above the expected number;
+     4 = "gap revealed by a Logout": a Logout (35=5) arrives above the expected number;
+     5 = "gap revealed by a SequenceReset": a SequenceReset arrives above the expected number outside a burst;
      0 = none of these.  The first that applies in history order. *)
 Definition fieldN (t : N) (raw : bytes) : option N :=
   match tok_get (dec t) (tokens raw) with Some v => undec v | None => None end.
@@ -197,6 +199,8 @@ Fixpoint classify (c : cst) (ops : list op) (tr : trace) : N :=
           (* this burst answers the ResendRequest *)
           if existsb is_gapfill msgs then classify (observe c false st) ops' tr' else 2
         else if (c_recv c <? q) && beq (msg_type_of raw) [51] then 3
+        else if (c_recv c <? q) && beq (msg_type_of raw) [53] then 4
+        else if (c_recv c <? q) && is_gapfill raw then 5
         else if (c_recv c <? q) && negb (is_gapfill raw) then classify (observe c true st) ops' tr'
         else classify (observe c false st) ops' tr'
       | [] => classify (observe c (c_gap c) st) ops' tr'
